@@ -479,6 +479,11 @@ class Inotify:
         wd = inotify_add_watch(self._inotify_fd, path, mask)
         if wd == -1:
             Inotify._raise_error()
+        # The kernel hands out the existing descriptor for a directory that is already
+        # watched: forget the name it was last known under (it was renamed unnoticed).
+        old_path = self._path_for_wd.get(wd)
+        if old_path is not None and old_path != path and self._wd_for_path.get(old_path) == wd:
+            del self._wd_for_path[old_path]
         self._wd_for_path[path] = wd
         self._path_for_wd[wd] = path
         return wd
